@@ -402,7 +402,7 @@ def ops_for(mode, tier, light=False):
 
 
 COPIES = ["copy"] + ["deepcopy"] + ["pickle%d" % p for p in range(6)] + \
-    ["deepcopy-value", "owner-collected"]
+    ["deepcopy-value", "owner-collected", "copy-value"]
 
 
 def copy_check(ctx, mode, state):
@@ -431,6 +431,12 @@ def copy_check(ctx, mode, state):
                 # deep copy of the trait value itself (detached from owner)
                 dup = COwner()
                 dup.__dict__["s"] = copy.deepcopy(src.s)
+            elif how == "copy-value":
+                if mode != "owner":
+                    continue
+                # shallow copy of the trait value itself
+                dup = COwner()
+                dup.__dict__["s"] = copy.copy(src.s)
             elif how == "owner-collected":
                 if mode != "owner":
                     continue
